@@ -105,6 +105,8 @@ class DilutionPlan:
         # transfer from stock until the volume is too low
         for c in range(C):
             vtransfer = numpy.round(vmax_arr[c] * ideal_targets[:, c] / stock, 0)
+            # rounding to whole microliters must not exceed a non-integer vmax
+            vtransfer = numpy.minimum(vtransfer, numpy.floor(vmax_arr[c]))
             if all(vtransfer >= min_transfer):
                 instructions.append((c, 0, "stock", vtransfer))
                 v_remaining.append(numpy.repeat(vmax_arr[c], R).astype(float))
@@ -119,6 +121,8 @@ class DilutionPlan:
             for src_c in range(0, len(instructions)):
                 _, src_df, _, _ = instructions[src_c]
                 vtransfer = numpy.ceil(vmax_arr[c] * ideal_targets[:, c] / actual_targets[src_c])
+                # rounding to whole microliters must not exceed a non-integer vmax
+                vtransfer = numpy.minimum(vtransfer, numpy.floor(vmax_arr[c]))
                 # take the leftmost column (least dilution steps) where the minimal transfer volume is exceeded
                 # and that still holds enough volume after the transfers that were already planned from it
                 if all(vtransfer >= min_transfer) and all(vtransfer <= v_remaining[src_c]):
